@@ -843,7 +843,7 @@ def unify_chunks_expr(*args, warn=True):
     # dims with common_blockdim instead -- refinement only splits chunks, so the
     # fallback moves no data.
     limit = config.get("array.unify-chunks-limit", None)
-    if limit and consolidate is coarse_blockdim:
+    if limit is not None and consolidate is coarse_blockdim:  # a limit of 0 is a limit ("0 B" already was)
         limit = parse_bytes(limit) if isinstance(limit, str) else limit
         worst = 0
         for a, i in arginds:
